@@ -504,7 +504,11 @@ class PDFStandardSecurityHandler:
 
     def decrypt_rc4(self, objid: int, genno: int, data: bytes) -> bytes:
         assert self.key is not None
-        key = self.key + struct.pack("<L", objid)[:3] + struct.pack("<L", genno)[:2]
+        key = (
+            self.key
+            + struct.pack("<L", objid & 0xFFFFFFFF)[:3]
+            + struct.pack("<L", genno & 0xFFFFFFFF)[:2]
+        )
         hash = md5(key)
         key = hash.digest()[: min(len(key), 16)]
         return Arcfour(key).decrypt(data)
@@ -567,8 +571,8 @@ class PDFStandardSecurityHandlerV4(PDFStandardSecurityHandler):
         assert self.key is not None
         key = (
             self.key
-            + struct.pack("<L", objid)[:3]
-            + struct.pack("<L", genno)[:2]
+            + struct.pack("<L", objid & 0xFFFFFFFF)[:3]
+            + struct.pack("<L", genno & 0xFFFFFFFF)[:2]
             + b"sAlT"
         )
         hash = md5(key)
@@ -843,8 +847,7 @@ class PDFDocument:
             (objs, n) = self._parsed_objs[stream.objid]
         else:
             (objs, n) = self._get_objects(stream)
-            if self.caching:
-                assert stream.objid is not None
+            if self.caching and stream.objid is not None:
                 self._parsed_objs[stream.objid] = (objs, n)
         i = n * 2 + index
         try:
@@ -876,6 +879,8 @@ class PDFDocument:
 
     def _getobj_parse(self, pos: int, objid: int) -> object:
         assert self._parser is not None
+        if not 0 <= pos < 2**63:
+            raise PDFSyntaxError(f"Invalid position of object {objid}: {pos}")
         self._parser.seek(pos)
         (_, objid1) = self._parser.nexttoken()  # objid
         (_, genno) = self._parser.nexttoken()  # genno
@@ -1106,8 +1111,8 @@ class PDFDocument:
         if start in visited:
             # /Prev or /XRefStm leads back to a section that was already read
             return
-        if start < 0:
-            raise PDFNoValidXRef("Negative xref offset")
+        if not 0 <= start < 2**63:
+            raise PDFNoValidXRef("Xref offset outside the file")
         visited.add(start)
         parser.seek(start)
         parser.reset()
